@@ -74,7 +74,7 @@ pub fn run_c06(a: &Args) {
         let mut plan = gen_plan(&mut rng);
         if n % 7 == 0 { plan.intent = 1; }
         // unknown next-state ordinals around the legal range and at the VarInt byte boundaries
-        if n % 13 == 5 { plan.intent = [0, 4, 5, -1, 127, 128, 255, i32::MAX, i32::MIN][(n / 13) % 9]; }
+        if n % 13 == 5 { plan.intent = [0, 4, 5, -1, 127, 128, 255, i32::MAX, i32::MIN, 257, 258, 259, 513, 65538, -254, i32::MIN + 2][(n / 13) % 16]; }
         let secret = if rng.chance(2, 3) { Some(b"secret".to_vec()) } else { None };
         plan.session_cookie = session_cookie_payload(&mut rng, &plan.host, plan.port);
         plan.routing = routing_steps(&mut rng);
@@ -329,6 +329,39 @@ pub fn run_c03(a: &Args) {
             }
         }
     }
+    // the default locale and the message tables as an operator configures them: tables in a configuration file, the default locale
+    // once in that file and once in the environment; read by Config::read(), built by the application's factory
+    {
+        use passage_adapters::localization::LocalizationAdapter;
+        let dir = std::env::temp_dir().join(format!("pv-c03cfg-{}", std::process::id()));
+        std::fs::create_dir_all(&dir).unwrap();
+        let tables: Vec<(String, Vec<(String, String)>)> = vec![
+            ("de".into(), vec![("disconnect_no_target".into(), "Kein Server frei".into()), ("disconnect_timeout".into(), "Zeitüberschreitung".into())]),
+            ("en".into(), vec![("disconnect_no_target".into(), "No server available".into())]),
+            ("fr_FR".into(), vec![("disconnect_no_target".into(), "Aucun serveur".into())]),
+        ];
+        let ttok = tables.iter().map(|(l, kv)| format!("{}={}", hex(l.as_bytes()), kv.iter().map(|(k, v)| format!("{}:{}", hex(k.as_bytes()), hex(v.as_bytes()))).collect::<Vec<_>>().join(","))).collect::<Vec<_>>().join(";");
+        let msgs: String = tables.iter().map(|(l, kv)| format!("        {l}:\n{}", kv.iter().map(|(k, v)| format!("          {k}: {}\n", serde_json::to_string(v).unwrap())).collect::<String>())).collect();
+        for via_env in [false, true] {
+            let base = dir.join(if via_env { "env" } else { "file" });
+            std::fs::write(base.with_extension("yaml"), format!("adapters:\n  localization:\n    fixed:\n{}      messages:\n{msgs}", if via_env { String::new() } else { "      default_locale: \"de\"\n".to_string() })).unwrap();
+            // SAFETY: the scenario engine's threads do not read the environment; no other thread of this runner exists now
+            unsafe { std::env::set_var("CONFIG_FILE", &base); if via_env { std::env::set_var("PASSAGE_ADAPTERS_LOCALIZATION_FIXED_DEFAULTLOCALE", "de"); } }
+            let cfg = passage::config::Config::read();
+            unsafe { std::env::remove_var("CONFIG_FILE"); std::env::remove_var("PASSAGE_ADAPTERS_LOCALIZATION_FIXED_DEFAULTLOCALE"); }
+            let how = if via_env { "in the environment" } else { "in the configuration file" };
+            let adapter = match cfg { Ok(c) => std::thread::spawn(move || { let rt = tokio::runtime::Builder::new_current_thread().build().unwrap(); rt.block_on(passage::adapter::localization::DynLocalizationAdapter::from_config(c.adapters.localization)).map_err(|e| e.to_string()) }).join().unwrap_or_else(|_| Err("factory panicked".into())), Err(e) => Err(e.to_string()) };
+            for (loc, key, want) in [(Some("pt_BR"), "disconnect_no_target", "Kein Server frei"), (Some("fr_FR"), "disconnect_no_target", "Aucun serveur"), (Some("xx_YY"), "disconnect_timeout", "Zeitüberschreitung"), (None, "disconnect_no_target", "Kein Server frei")] {
+                let (observed, oracle) = match &adapter {
+                    Err(e) => ("unreadable".to_string(), Some(format!("localisation configured with default locale de {how}: not usable: {e}"))),
+                    Ok(ad) => { let rt = tokio::runtime::Builder::new_current_thread().build().unwrap();
+                        match rt.block_on(ad.localize(loc, key, &[])) { Ok(t) => (hex(t.as_bytes()), if t == want { None } else { Some(format!("default locale de configured {how}: locale {loc:?} got {t:?}, the configured message is {want:?}")) }), Err(e) => (format!("err:{e}"), Some(format!("localisation failed: {e}"))) } }
+                };
+                cases.push(Case { request: format!("c03.loc {} {} {} {ttok}", hex(b"de"), loc.map_or("-".to_string(), |l| hex(l.as_bytes())), hex(key.as_bytes())), observed, oracle, class: format!("builtin-localisation:config-{}", if via_env { "env" } else { "file" }) });
+            }
+        }
+        let _ = std::fs::remove_dir_all(&dir);
+    }
     finish("c03", a, cases);
 }
 
@@ -433,6 +466,8 @@ pub fn run_c07(a: &Args) {
             }
         }
         if rng.chance(1, 4) { events.push((900, Step::KeepAlive(Echo::Nth(0)))); } // unsolicited, before any Keep Alive
+        // Client Information sent again while routing is still running (a client does so when an option changes): ignored, nothing ends
+        if rng.chance(1, 4) && done[2] > tci + 2_000 { let t = tci + 100 + 437 + 1_000 * rng.below((done[2] - tci - 1_000) / 1_000); events.push((t, Step::Frame(b::client_info(plan.locale.as_bytes())))); }
         events.sort_by_key(|e| e.0);
         plan.pre_info = vec![]; plan.routing = vec![];
         let mut steps: Vec<Step> = render(&plan, secret.is_some());
@@ -513,6 +548,46 @@ pub fn run_c07(a: &Args) {
             _ => {}
         }
         cases.push(case_of(&o, why, format!("stall:{}:{}", stall / 16_000, reach(&o))));
+    }
+    // a slow login: the client takes longer than one keep-alive period to acknowledge the login; the ticks that pass meanwhile are
+    // silent, and once the configuration phase has begun Keep Alives come on the same 16 s grid, never earlier
+    for k in 0..(a.cases / 40).clamp(6, 200) {
+        let mut plan = gen_plan(&mut rng);
+        plan.intent = *rng.pick(&[2, 3]);
+        plan.session_cookie = None;
+        let secret = if k % 2 == 0 { Some(b"s".to_vec()) } else { None };
+        let mut v = gen_verdicts(&mut rng, &plan);
+        v.auth = Ok(gen_profile(&mut rng, &plan.claimed_name, plan.claimed_uuid));
+        let nt = v.targets.len();
+        v.discover = Ok((0..nt).collect()); v.filter = Ok((0..nt).collect());
+        v.select = if nt > 0 { Ok(Some(rng.below(nt as u64) as usize)) } else { Ok(None) };
+        v.loc_fail = false;
+        plan.pre_info = vec![]; plan.routing = vec![];
+        let legal: Vec<Step> = render(&plan, secret.is_some());
+        let slow = *rng.pick(&[17_000u64, 30_000, 31_900, 47_000, 63_500]);
+        let delay = *rng.pick(&[150u64, 5_000, 12_000]);
+        let ack = legal.iter().position(|s| matches!(s, Step::Frame(p) if p.as_slice() == [3u8])).unwrap_or(legal.len() - 1);
+        let mut steps: Vec<Step> = legal[..ack].to_vec();
+        steps.push(Step::Wait(slow));
+        steps.extend(legal[ack..].iter().cloned());
+        let mut now = slow;
+        for _ in 0..3 { let tick = 16_000 * (now / 16_000 + 1); steps.push(Step::Wait(tick + delay - now)); now = tick + delay; steps.push(Step::KeepAlive(Echo::Last)); }
+        steps.push(Step::Wait(1_037));
+        for _ in 0..3 { steps.push(Step::AdapterDone); steps.push(Step::Wait(200)); }
+        let sc = scenario(&mut rng, &plan, secret.clone(), steps, v);
+        let o = exec(&sc);
+        let mut why = vec![];
+        if o.result == "err:missed-keep-alive" { why.push(format!("after a login of {slow} ms the client echoed every Keep Alive {delay} ms after it was sent, yet it was dropped for inactivity")); }
+        let pk: Vec<(&P, u64)> = o.events.iter().filter_map(|e| if let crate::conn::Event::Send(p) = e { Some(p) } else { None }).zip(o.packet_ms.iter().copied()).collect();
+        let kas: Vec<u64> = pk.iter().filter(|(p, _)| matches!(p, P::KeepAlive(_))).map(|x| x.1).collect();
+        for t in &kas { if *t < slow || t % 16_000 > 100 && t % 16_000 < 15_900 { why.push(format!("Keep Alive at {t} ms: the configuration phase began at {slow} ms and Keep Alives are due on the 16 s grid")); } }
+        if kas.len() != 3 && o.result != "hang" { why.push(format!("{} Keep Alives, 3 were due", kas.len())); }
+        match (&sc.verdicts.select, pk.last()) {
+            (Ok(Some(i)), Some((P::Transfer { host, port }, _))) => { let t = &sc.verdicts.targets[*i]; if host != t.address.ip().to_string().as_bytes() || *port != i32::from(t.address.port()) { why.push("wrong Transfer after the slow login".into()); } }
+            (Ok(Some(_)), other) => why.push(format!("routing completed with a choice after the slow login, but the run ended with {:?} / {}", other.map(|x| x.0.canonical().chars().take(30).collect::<String>()), o.result)),
+            _ => {}
+        }
+        cases.push(case_of(&o, why, format!("slow-login:{}:{}", slow / 16_000, reach(&o))));
     }
     finish("c07", a, cases);
 }
